@@ -27,3 +27,17 @@ Theorem C07_trace_greedy : forall u P lg sol G,
 Proof. exact sat_log_greedy. Qed.
 Check C07_trace_greedy : forall u P lg sol G,
   check_sat_log u P lg sol = true -> pr_soft P = [] -> greedy_ok (table_provider u) P G -> same_set sol G.
+
+(* ---- Solver::decide itself (Cdcl/Decide.v), compared with the implementation
+   at every call: its proposal is always the first candidate, in the provider's
+   order, that is not false, of a requirement none of whose candidates is
+   installed (rule D1 of the machine the theorems above are about) ---- *)
+From Resolvo Require Import Cdcl.DecideProofs.
+
+Theorem C07_decide_legal : forall U act_ge pa db,
+  (forall c, In c db -> req_wf U c = true) -> forall d,
+  root_first db = true -> lit_istrue pa (VRoot, true) = true ->
+  decide U act_ge db pa = Some (Some d) ->
+  exists c, nth_error db (N.to_nat (pd_clause d)) = Some c /\
+            decision_kind db pa c (VSol (pd_cand d), true) = Some (if is_vroot (pd_parent d) then ERootDec else EDec).
+Proof. exact decide_legal. Qed.
